@@ -1,0 +1,298 @@
+//! Verification hook (cargo feature `verif`, off by default).
+//!
+//! Plain-text dump of the [`Grammar`] and the [`LRTable`] the compiler computes
+//! for a grammar text, including LR item lookaheads which are otherwise
+//! private. One record per line, fields separated by a single space, strings
+//! hex encoded (`-` for none). Nothing here is used by the compiler itself.
+use std::fmt::Write;
+
+use rustemo::Parser;
+
+use crate::{
+    grammar::{builder::GrammarBuilder, Associativity, Grammar},
+    lang::{rustemo::RustemoParser, rustemo_actions::ConstVal, rustemo_actions::Recognizer},
+    settings::{LexerType, ParserAlgo, Settings},
+    table::{Action, LRTable},
+    Error, Result,
+};
+
+fn hex(s: &str) -> String {
+    if s.is_empty() {
+        return "=".into();
+    }
+    s.bytes().map(|b| format!("{b:02x}")).collect()
+}
+
+fn ohex(s: &Option<String>) -> String {
+    match s {
+        Some(s) => hex(s),
+        None => "-".into(),
+    }
+}
+
+fn assoc(a: &Associativity) -> &'static str {
+    match a {
+        Associativity::None => "N",
+        Associativity::Left => "L",
+        Associativity::Right => "R",
+    }
+}
+
+fn constval(v: &ConstVal) -> String {
+    match v {
+        ConstVal::Int(i) => format!("i:{}", i.as_ref()),
+        ConstVal::Float(f) => format!("f:{}", f.as_ref()),
+        ConstVal::Bool(b) => format!("b:{}", b.as_ref()),
+        ConstVal::String(s) => format!("s:{}", hex(s.as_ref())),
+    }
+}
+
+/// Dumps the grammar part.
+pub fn dump_grammar(g: &Grammar, out: &mut String) {
+    let _ = writeln!(
+        out,
+        "grammar {} {} {} {} {} {} {} {}",
+        g.terminals.len(),
+        g.nonterminals.len(),
+        g.productions.len(),
+        g.empty_index.0,
+        g.stop_index.0,
+        g.augmented_index.0,
+        g.augmented_layout_index
+            .map_or("-".to_string(), |i| i.0.to_string()),
+        g.start_index.0
+    );
+    for t in &g.terminals {
+        let rec = match &t.recognizer {
+            Some(Recognizer::StrConst(s)) => format!("S:{}", hex(s.as_ref())),
+            Some(Recognizer::RegexTerm(r)) => format!("R:{}", hex(r.as_ref())),
+            None => "-".into(),
+        };
+        let meta = t
+            .meta
+            .iter()
+            .map(|(k, v)| format!("{}={}", hex(k), constval(v)))
+            .collect::<Vec<_>>();
+        let _ = writeln!(
+            out,
+            "term {} {} {} {} {} {} {} {} {} {}",
+            t.idx.0,
+            hex(&t.name),
+            t.prio,
+            assoc(&t.assoc),
+            rec,
+            t.has_content as u8,
+            t.reachable.get() as u8,
+            ohex(&t.annotation),
+            meta.len(),
+            meta.join(" ")
+        );
+    }
+    for n in &g.nonterminals {
+        let _ = writeln!(
+            out,
+            "nonterm {} {} {} {} {} {}",
+            n.idx.0,
+            hex(&n.name),
+            n.reachable.get() as u8,
+            ohex(&n.annotation),
+            n.productions.len(),
+            n.productions
+                .iter()
+                .map(|p| p.0.to_string())
+                .collect::<Vec<_>>()
+                .join(" ")
+        );
+    }
+    for p in &g.productions {
+        let meta = p
+            .meta
+            .iter()
+            .map(|(k, v)| format!("{}={}", hex(k), constval(v)))
+            .collect::<Vec<_>>();
+        let rhs = p
+            .rhs_assign()
+            .iter()
+            .map(|a| {
+                format!(
+                    "{}:{}:{}",
+                    a.symbol.0,
+                    a.name.as_ref().map_or("-".to_string(), |n| hex(n.as_ref())),
+                    a.is_bool as u8
+                )
+            })
+            .collect::<Vec<_>>();
+        let _ = writeln!(
+            out,
+            "prod {} {} {} {} {} {} {} {} {} {} {} {} {}",
+            p.idx.0,
+            p.nonterminal.0,
+            p.ntidx,
+            ohex(&p.kind),
+            p.prio,
+            assoc(&p.assoc),
+            p.nops as u8,
+            p.nopse as u8,
+            p.dynamic as u8,
+            rhs.len(),
+            rhs.join(" "),
+            meta.len(),
+            meta.join(" ")
+        );
+    }
+}
+
+/// Dumps the table part.
+pub fn dump_table(table: &LRTable, out: &mut String) {
+    for (idx, f) in table.verif_first_sets().iter().enumerate() {
+        let _ = writeln!(
+            out,
+            "first {} {} {}",
+            idx,
+            f.len(),
+            f.iter()
+                .map(|s| s.to_string())
+                .collect::<Vec<_>>()
+                .join(" ")
+        );
+    }
+    match &table.production_rn_lengths {
+        Some(l) => {
+            let _ = writeln!(
+                out,
+                "rn {} {}",
+                l.len(),
+                l.iter()
+                    .map(|s| s.to_string())
+                    .collect::<Vec<_>>()
+                    .join(" ")
+            );
+        }
+        None => {
+            let _ = writeln!(out, "rn -");
+        }
+    }
+    let _ = writeln!(
+        out,
+        "table {} {}",
+        table.states.len(),
+        table
+            .layout_state
+            .map_or("-".to_string(), |s| s.0.to_string())
+    );
+    for state in &table.states {
+        let items = state.verif_items();
+        let _ = writeln!(out, "state {} {} {}", state.idx.0, state.symbol.0, items.len());
+        for (prod, pos, follow) in items {
+            let _ = writeln!(
+                out,
+                "item {} {} {} {}",
+                prod,
+                pos,
+                follow.len(),
+                follow
+                    .iter()
+                    .map(|s| s.to_string())
+                    .collect::<Vec<_>>()
+                    .join(" ")
+            );
+        }
+        for (term, actions) in state.actions.iter().enumerate() {
+            if actions.is_empty() {
+                continue;
+            }
+            let acts = actions
+                .iter()
+                .map(|a| match a {
+                    Action::Shift(s) => format!("S {}", s.0),
+                    Action::Reduce(p, l) => format!("R {} {}", p.0, l),
+                    Action::Accept => "A".to_string(),
+                })
+                .collect::<Vec<_>>();
+            let _ = writeln!(out, "act {} {} {}", term, acts.len(), acts.join(" "));
+        }
+        for (nt, goto) in state.gotos.iter().enumerate() {
+            if let Some(s) = goto {
+                let _ = writeln!(out, "goto {} {}", nt, s.0);
+            }
+        }
+        let _ = writeln!(
+            out,
+            "sorted {} {}",
+            state.sorted_terminals.len(),
+            state
+                .sorted_terminals
+                .iter()
+                .map(|(t, f)| format!("{} {}", t.0, *f as u8))
+                .collect::<Vec<_>>()
+                .join(" ")
+        );
+        let prios = state.verif_max_prior_for_term();
+        let _ = writeln!(
+            out,
+            "maxprio {} {}",
+            prios.len(),
+            prios
+                .iter()
+                .map(|(t, p)| format!("{t} {p}"))
+                .collect::<Vec<_>>()
+                .join(" ")
+        );
+    }
+}
+
+/// Runs the front part of the compiler pipeline on the grammar text exactly
+/// in the order `generate_parser` does (parse, build grammar, recognizer
+/// check, table) and returns the dump. `conflicts` is reported only for LR.
+pub fn dump(grammar_text: &str, settings: &Settings) -> Result<String> {
+    let file = RustemoParser::new().parse(grammar_text)?;
+    let grammar: Grammar = GrammarBuilder::new().try_from_file(file, None)?;
+    if let LexerType::Default = settings.lexer_type {
+        for term in &grammar.terminals {
+            if term.idx.0 != 0 && term.recognizer.is_none() {
+                return Err(Error::Error(format!(
+                    "Recognizer not defined for terminal '{}'.",
+                    term.name
+                )));
+            }
+        }
+    }
+    let table = LRTable::new(&grammar, settings)?;
+    let mut out = String::new();
+    let _ = writeln!(
+        out,
+        "settings {} {:?} {} {} {} {} {} {} {}",
+        match settings.parser_algo {
+            ParserAlgo::LR => "LR",
+            ParserAlgo::GLR => "GLR",
+        },
+        settings.table_type,
+        settings.prefer_shifts as u8,
+        settings.prefer_shifts_over_empty as u8,
+        settings.lexical_disamb_most_specific as u8,
+        settings.lexical_disamb_longest_match as u8,
+        settings.lexical_disamb_grammar_order as u8,
+        settings.partial_parse as u8,
+        settings.skip_ws as u8,
+    );
+    dump_grammar(&grammar, &mut out);
+    dump_table(&table, &mut out);
+    let conflicts: usize = table
+        .states
+        .iter()
+        .map(|s| s.actions.iter().filter(|a| a.len() > 1).count())
+        .sum();
+    let _ = writeln!(out, "conflicts {}", conflicts);
+    let _ = writeln!(out, "end");
+    Ok(out)
+}
+
+/// Only the grammar (no table), for front-end checks.
+pub fn dump_grammar_only(grammar_text: &str) -> Result<String> {
+    let file = RustemoParser::new().parse(grammar_text)?;
+    let grammar: Grammar = GrammarBuilder::new().try_from_file(file, None)?;
+    let mut out = String::new();
+    dump_grammar(&grammar, &mut out);
+    let _ = writeln!(out, "end");
+    Ok(out)
+}
